@@ -156,7 +156,9 @@ static void stage_random(Run &R) {
     K k(A);
     static const long long RFCS[] = {-1, 4, 7, 2147483647LL};
     std::vector<std::vector<Op>> batch;
+    std::optional<Failure> leak;   // once a leak is attributed, every further evaluation reports it: shrinking ends at once instead of chasing it
     rc_run(R, "C13 random histories up to 200 operations", 6.0, [&](Src &s) -> std::optional<Failure> {
+        if (leak) return leak;
         // address pool for this history
         std::vector<Bytes> pool; uint32_t np = 2 + s.pick(12);
         for (uint32_t i = 0; i < np; i++) pool.push_back(s.chance(1, 3) ? s.of(corpus) : gen_address(s, T));
@@ -181,7 +183,7 @@ static void stage_random(Run &R) {
         R.sample("random history", g_case.substr(0, 400), 3);
         if (f) return f;
         batch.push_back(h);
-        if (batch.size() >= 100) return batch_leakcheck(R, batch);
+        if (batch.size() >= 100) { leak = batch_leakcheck(R, batch); return leak; }
         return std::nullopt;
     });
     if (!R.failed()) { auto f = batch_leakcheck(R, batch); if (f) R.fail(*f); }
